@@ -52,7 +52,7 @@ METHODS = {
     "mulmod": [("modulus_value",)],
 }
 # method -> expected concrete-path returns `return HalmosBitVec(<int arithmetic>, size=...)`, in
-# source order, each the sorted tuple of its free names
+# source order, each the sorted tuple of the names it may use (= the parameters of r_/rd_/rw_)
 RETS = {
     "add": [("other__value", "self__value")],
     "sub": [("other__value", "self__value")],
@@ -315,7 +315,10 @@ def translate(src_text):
         got, texts = [], []
         for k, r in enumerate(rs, 1):
             e = _Flatten().visit(ast.parse(ast.unparse(r.value.args[0]), mode="eval").body)
-            params = tuple(p for p in _free_names(e) if p != "pow")
+            free = tuple(p for p in _free_names(e) if p != "pow")
+            # the parameter list is the expected one; the expression may use fewer names (the
+            # theorems about the regenerated definition decide whether that is still right)
+            params = tuple(expected[k - 1]) if k <= len(expected) and set(free) <= set(expected[k - 1]) else free
             got.append(params)
             t = _Ret()
             v, _ = t.tr(e)
